@@ -269,13 +269,14 @@ def accept(loopname, prog, events, res, res2):
             after = names[names.index("mid2") + 1:]
             # which idle callbacks are registered when mid2 runs (removals and additions of both runs, in order)
             live2 = {"i1": True, "i2": True} if variant == "full" else {}
+            passed = False
             for e in events:
-                if e[0] == "add_idle":
+                if e[0] == "add_idle" and not passed:
                     live2[e[1]] = True
                 elif e[0] == "rm_idle" and e[2] is True:
-                    live2[e[1]] = False
+                    live2[e[1]] = False  # (also when an earlier idle callback of that very pass removes it)
                 elif e[0] == "cb" and e[1] == "mid2":
-                    break
+                    passed = True
             for iname, live in live2.items():
                 if live and iname not in after:
                     out.append(("idle-after-callback", "second-run", f"second run(): idle callback {iname} did not run after the alarm callback mid2 (callbacks of the second run: {names})"))
